@@ -1,20 +1,27 @@
 """C10 — recovery sweeps: harmless on healthy workflows, idempotent after a crash (engine-level: Mode-A trace differential + monitors; see harness/engine_suites.py)."""
 from __future__ import annotations
 
-from harness import engine_suites
+from harness import engine_suites, synth_suites
 
 RULE = ("random workflows (1-5 stages, every join type, scripted task outcomes incl. polling / transient / jump / suspend) x "
         "delivery schedules (fifo | random order | random + redelivery of unacknowledged messages | arbitrary incl. early re-polls), "
         "one or two recovery sweeps injected before delivery step j of the FIFO run (quick: 4 sampled j, thorough: every j); every op is applied to the REAL engine and the Lean model, the state line after every op is compared; "
-        "a trace is distinct by (spec, op list) and non-trivial when it has >= 8 ops and a non-FIFO choice or an injected op")
+        "a trace is distinct by (spec, op list) and non-trivial when it has >= 8 ops and a non-FIFO choice or an injected op; "
+        "PLUS the synthetic-stage family (harness/synth_suites.py, IMPLEMENTATION-ONLY: monitors on real-engine traces, no model line): workflows of 1-3 top-level stages (single | chain | two parallel roots | fan-in) with 1-2 pre-declared STAGE_BEFORE / STAGE_AFTER children per chosen parent, stored through the real store; per workflow the healthy in-order run, then: one or two sweeps before delivery step j (quick: 5 sampled j, thorough: every j); a sweep by another worker right after the k-th commit of delivery j (op i<row>.<k>; quick 5 sampled (j,k), thorough every j x k in 0..2); after a kill at commit k of delivery j one sweep vs two sweeps in a row; judged by smon_c10 (the oracle of mon_c10 with children) and the transition-table monitor")
 ASSUMPTIONS = ["delays are abstracted: budget-respecting schedules deliver a delayed message only when no immediate one is pending",
-               "per-workflow circuit breaker disabled in the harness (volatile state outside the model)"]
+               "per-workflow circuit breaker disabled in the harness (volatile state outside the model)",
+               "synthetic-stage family: for workflows with a halting task result the sweep's no-op duplicates shift the in-order schedule like any reordering, so statuses / counts are not compared there (DESIGN section 6, order-dependent references); checked instead: the run still ends and (kill-free traces) no task with a recorded result executes again",
+               "synthetic-stage family: a signature adjudicated as a real defect and awaiting a decision (synth_suites.PENDING) is evaluated on every run but REPORTED only with VERIF_SYNTH_PENDING=1"]
 TRUSTED_BASE = ["Engine model (lean/Stab/Model/Engine.lean) is hand-written; tied to handlers/* by the trace differential on generated schedules only",
-                "not modelled: synthetic stages, mutex/deferred choice, OR-split conditions, pause/resume, timeouts, PostgreSQL backend"]
+                "not modelled: synthetic stages (and ContinueParentStage), mutex/deferred choice, OR-split conditions, pause/resume, timeouts, PostgreSQL backend",
+                "synthetic before/after stages are covered by an IMPLEMENTATION-ONLY family (harness/synth_suites.py): the property is stated by monitors on traces of the real engine; "
+                "no theorem and no model correspondence speaks about them; trusted there: the generator, the monitors, the symbolic minimiser / replayer (schedule by message code, then in-order drain), the queue's dead-letter rule as replayed by the harness"]
 
 
 def run(ctx) -> None:
     engine_suites.run_for(ctx, "C10")
+    # synthetic before/after stages: implementation-only family (monitors on real-engine traces, no model line)
+    synth_suites.run_for(ctx, "C10")
 
 
 def search(ctx) -> None:
@@ -22,4 +29,6 @@ def search(ctx) -> None:
 
 
 def replay(ctx, body) -> int:
+    if synth_suites.is_synth_replay(body):
+        return synth_suites.replay(ctx, body)
     return engine_suites.replay(ctx, body)
